@@ -114,7 +114,7 @@ class Creators:
         else:
           version = gfa_line.VN
         # the checks are done before the state of the Gfa is changed
-        if self._vlevel > 0 and gfa_line.VN not in ["1.0", "2.0"]:
+        if gfa_line.VN not in ["1.0", "2.0"]:
           raise gfapy.VersionError(
             "GFA specification version {} not supported".format(version))
         self.__check_line_queue(version)
